@@ -62,7 +62,8 @@ def str_case(rng, w, n, signed, r):
         # one invalid byte in an otherwise valid numeral (short or long)
         ln = rng.choice([1, 2, 3, 5, W // 8, W])
         s = bytearray(numeral(rng.randrange(r ** ln), r).encode())
-        bad = rng.choice([b" ", b"_", b"-", b"+", b"\t", b"\n", b".", b"/", b":", b"@", b"[", b"`", b"{", b"\xc3\xa9", b"\xd9\xa1",
+        bad = rng.choice([bytes([rng.randrange(0x80, 0x100)]), bytes([rng.choice([0xc1, 0xda, 0xe1, 0xfa, 0xc0, 0xff, 0x80, 0xbf])]),
+                          b" ", b"_", b"-", b"+", b"\t", b"\n", b".", b"/", b":", b"@", b"[", b"`", b"{", b"\xc3\xa9", b"\xd9\xa1",
                           DIG[r].encode() if r < 36 else b"~", DIG[min(35, r)].upper().encode() if r < 36 else b"!", b"\x00", b"\x7f"])
         pos = rng.choice([0, len(s) // 2, len(s)])
         s[pos:pos] = bad
